@@ -43,6 +43,7 @@
 #include "colvarbias.h"
 #include "colvarbias_restraint.h"
 #include "colvarbias_opes.h"
+#include "colvarbias_meta.h"
 #include "colvarproxy.h"
 #undef private
 #undef protected
@@ -59,6 +60,7 @@ int main()
   int nbias = 0;
   std::map<std::string, colvarbias_opes *> opes_cache;
   std::map<colvar *, colvarbias_restraint_harmonic *> hb_cache;
+  std::map<colvar *, colvarbias_meta *> ml_cache;
   std::map<colvar *, colvarbias_restraint_harmonic_walls *> hw_cache;
   std::map<std::string, colvar *> cache;
   int ncv = 0;
@@ -240,7 +242,7 @@ int main()
         colvarvalue x1(v1, colvarvalue::type_vector), x2(v2, colvarvalue::type_vector);
         o << H(x1 * x2) << " " << H(x1.norm2()) << "\n";
       }
-    } else if (cmd == "CD" || cmd == "CW" || cmd == "HB" || cmd == "FV") {
+    } else if (cmd == "CD" || cmd == "CW" || cmd == "HB" || cmd == "FV" || cmd == "ML") {
       // a real single-component variable of the given kind: colvar::dist2, dist2_lgrad, dist2_rgrad (CD) or colvar::wrap (CW)
       std::string kind = a[p++];
       double wc = nf();
@@ -346,6 +348,31 @@ int main()
         hb->force_k = k; cv->width = w; cv->x = x; cv->x_reported = x; hb->colvar_centers[0] = c;
         o << H(hb->restraint_potential(0)) << " " << vs_hex(hb->restraint_force(0)) << "\n";
         cv->width = 1.0;
+      } else if (cmd == "ML") {
+        // one metadynamics hill on this variable: ML kind wc n W sigma x[n] centre[n] -> calc_hills energy, calc_hills_force
+        double W = nf(), sigma = nf();
+        colvarvalue x = rd(proto), c = rd(proto);
+        colvarbias_meta *mb = NULL;
+        if (ml_cache.count(cv)) mb = ml_cache[cv];
+        else {
+          std::string bname = "ml" + cvm::to_str(nbias++);
+          std::string bconf = "metadynamics {\n  name " + bname + "\n  colvars " + cv->name + "\n  hillWeight 1.0\n  hillWidth 1.0\n  newHillFrequency 1000\n  useGrids off\n}\n";
+          cvm::clear_error();
+          S.proxy->colvars->read_config_string(bconf);
+          mb = dynamic_cast<colvarbias_meta *>(cvm::bias_by_name(bname));
+          if (cvm::get_error()) mb = NULL;
+          cvm::clear_error();
+          ml_cache[cv] = mb;
+        }
+        if (!mb) { o << "nobias\n"; continue; }
+        std::list<colvarbias_meta::hill> hl;
+        hl.push_back(colvarbias_meta::hill(0, W, std::vector<colvarvalue>(1, c), std::vector<cvm::real>(1, sigma)));
+        std::vector<colvarvalue> values(1, x);
+        std::vector<colvarvalue> forces(1, proto); forces[0].reset();
+        cvm::real energy = 0.0;
+        mb->calc_hills(hl.begin(), hl.end(), energy, &values);
+        mb->calc_hills_force(0, hl.begin(), hl.end(), forces, &values);
+        o << H(energy) << " " << vs_hex(forces[0]) << "\n";
       } else if (cmd == "FV") {
         // finite-difference velocity: FV kind wc n dt xold[n] xnew[n] -> colvar::fdiff_velocity
         double dt = nf();
@@ -358,7 +385,7 @@ int main()
         cv->wrap(x);
         o << vs_hex(x) << "\n";
       }
-    } else if (cmd == "SUM") {
+    } else if (cmd == "SUM" || cmd == "SUMM") {
       // a variable that is a sum of n components given in CONFIG order: SUM n (keyword period coeff exp wrapAround)*n x1 x2 xw
       // -> colvar::init's decision (f_cv_periodic, period, wrap_center) and dist2 / lgrad / rgrad (x1,x2), wrap(xw)
       int n = ni();
@@ -382,8 +409,20 @@ int main()
         if (per_kw || (kw == "distanceZ" && P != 0.0)) { snprintf(buf, sizeof(buf), "    wrapAround %.17g\n", wc); body += buf; }
         conf += "  " + kw + " {\n" + body + "  }\n";
       }
-      colvar *cv = get_cv("sum " + conf, conf);
+      colvar *cv = get_cv((cmd == "SUMM") ? ("summ " + cvm::to_str(ncv)) : ("sum " + conf), conf);     // SUMM: a fresh object (it is modified)
       if (!cv) { o << "noconfig\n"; continue; }
+      if (cmd == "SUMM") {
+        // run-time modification (modifycvcs) of ONE component, given by its index in creation order: new period (0 = unchanged), new coefficient
+        int jc = ni(); double Pn = nf(), cn = nf();
+        std::vector<std::string> confs(cv->cvcs.size(), std::string(""));
+        char mb[256];
+        if (Pn != 0.0) snprintf(mb, sizeof(mb), "period %.17g\ncomponentCoeff %.17g\n", Pn, cn);
+        else snprintf(mb, sizeof(mb), "componentCoeff %.17g\n", cn);
+        if (jc >= 0 && jc < int(confs.size())) confs[jc] = mb;
+        cvm::clear_error();
+        cv->update_cvc_config(confs);
+        cvm::clear_error();
+      }
       colvarvalue x1(nf()), x2(nf()), xw(nf());
       bool per = cv->is_enabled(colvardeps::f_cv_periodic);
       cv->wrap(xw);
@@ -443,7 +482,7 @@ int main()
       o << out.substr(1) << "\n";
       delete b;
       cvm::clear_error();
-    } else if (cmd == "OM") {
+    } else if (cmd == "OM" || cmd == "OK") {
       // OPES kernel merge on a periodic distanceZ: OM P c h1 k1 s1 h2 k2 s2 -> merged centre, sigma, height
       double P = nf(), c = nf();
       char buf[256]; snprintf(buf, sizeof(buf), "%.17g %.17g", P, c);
@@ -465,6 +504,19 @@ int main()
         opes_cache[buf] = ob;
       }
       if (!ob) { o << "nobias\n"; continue; }
+      if (cmd == "OK") {
+        // one OPES kernel evaluated at x: OK P c h centre sigma cutoff2 val_at_cutoff x -> both overloads of evaluateKernel
+        double h = nf(), kc = nf(), sg = nf(), cut2 = nf(), vac = nf(), xv = nf();
+        cvm::real const save_c = ob->m_cutoff2, save_v = ob->m_val_at_cutoff;
+        ob->m_cutoff2 = cut2; ob->m_val_at_cutoff = vac;
+        colvarbias_opes::kernel K(h, std::vector<cvm::real>(1, kc), std::vector<cvm::real>(1, sg));
+        std::vector<cvm::real> xs(1, xv), der(1, 0.0), dist(1, 0.0);
+        cvm::real v1 = ob->evaluateKernel(K, xs);
+        cvm::real v2 = ob->evaluateKernel(K, xs, der, dist);
+        ob->m_cutoff2 = save_c; ob->m_val_at_cutoff = save_v;
+        o << H(v1) << " " << H(v2) << "\n";
+        continue;
+      }
       double h1 = nf(), k1 = nf(), s1 = nf(), h2 = nf(), k2 = nf(), s2 = nf();
       colvarbias_opes::kernel K1(h1, std::vector<cvm::real>(1, k1), std::vector<cvm::real>(1, s1));
       colvarbias_opes::kernel K2(h2, std::vector<cvm::real>(1, k2), std::vector<cvm::real>(1, s2));
